@@ -28,6 +28,8 @@ def handleCon (j : Json) : Option Json := do
   let inf ← fieldRat? j "inf"
   let tol ← fieldRat? j "tol"
   let size ← fieldNat? j "size"
+  if size > 10000 then
+    return jObj [("ok", jBool false), ("err", jStr "size-too-large")]
   let lo ← fieldRats? j "lower"
   let hi ← fieldRats? j "upper"
   let eq ← optField? j "equals" (fun e => getList? e >>= fun l => l.mapM getRat?)
@@ -116,6 +118,10 @@ def handleTrace (j : Json) : Option Json := do
       | "j" => pure (Call.cgrad x)
       | _ => none
     | _ => none
+  -- all functions of the model are structural recursions on this list (linear time); the cap only
+  -- bounds the work a single malformed request can ask for
+  if calls.length > 20000 then
+    return jObj [("ok", jBool false), ("err", jStr "trace-too-long")]
   let s0 ← fieldNat? j "start"
   let v ← field? j "variant" >>= getVariant?
   let xr ← fieldNat? j "result"
